@@ -1185,4 +1185,23 @@ theorem nsmallest_eq_pandas (n : Nat) (parts : List (List Int)) (hparts : parts 
 
 example : ([[1, 5], [], [3, 5], [4], [0]] : List (List Int)) ≠ [] := by decide
 
+/-- instance of `tree_eq_single_partition` (non-vacuity of its hypotheses): `sum` over any partitioning is what the same
+    chunk / aggregate compute when the whole column sits in ONE partition -/
+theorem sum_tree_eq_single_partition (parts : List (List Cell)) (hparts : parts ≠ []) (se : Option Nat)
+    (hse : ∀ k, se = some k → 2 ≤ k) :
+    kernelReduce se (sumK true) parts = some (sumK true [sumK true parts.flatten]) := by
+  exact tree_eq_single_partition addMon sumValid sumValid_hom (sumK true) (sumK true) (sumK true) (fun c => c.getD 0)
+    parts hparts
+    (by intro p; simp [sumK_true])
+    (by intro bs _; rw [sumK_true]; simp only [Option.getD_some]; exact sumValid_cells bs)
+    (by
+      intro bs bs' _ _ h
+      rw [sumK_true, sumK_true, sumValid_cells bs, sumValid_cells bs', h])
+    se hse
+
+/-- **mean(skipna=False)** as the exact pair (NaN-absorbing sum, count) -/
+theorem mean_noskip_eq_pandas (parts : List (List Cell)) (hparts : parts ≠ []) (se : Option Nat) (hse : ∀ k, se = some k → 2 ≤ k) :
+    daskMean se false parts = some (sumK false parts.flatten, countK parts.flatten) := by
+  simp [daskMean, sum_noskip_eq_pandas parts hparts se hse, count_eq_pandas parts hparts se hse]
+
 end Dask.C37
